@@ -588,6 +588,8 @@ class CallMixin:
                 p.env[n] = v
             elif t == 'Bytes' and isinstance(v, VBytes):
                 p.env[n] = v          # keeps the code/spec provenance (byte-range facts at read sites)
+            elif isinstance(t, tuple) and t[0] == 'Ref' and isinstance(v, VRef) and v.cls is not None:
+                p.env[n] = v          # keeps the (possibly more specific) static class of the reference
             else:
                 p.env[n] = self.value_of_type(self.coerce_to(v, t), t)
         try:
@@ -709,6 +711,18 @@ class CallMixin:
     def sp_last_alloc(self, node, p, fc):
         """the most recently allocated object"""
         return [Res(p, VRef(next_ref(p) - 1))]
+
+    def sp_exc(self, node, p, fc):
+        """exc('ClassName'): an exception instance of that class, as held in a Deferred / errback"""
+        return [Res(p, VExcVal(z3.IntVal(exc_code(ast.literal_eval(node.args[0])))))]
+
+    def sp_has_class(self, node, p, fc):
+        """has_class(obj, 'qualified.Class'): static class test (the class of self is fixed per verification unit)"""
+        v = self.ev(node.args[0], p, fc)[0].v
+        q = ast.literal_eval(node.args[1])
+        if not isinstance(v, VRef) or v.cls is None:
+            raise Unsupported('has_class needs a reference of statically known class')
+        return [Res(p, VBool(v.cls == q or (v.cls in self.repo.classes and self.repo.is_subclass(v.cls, q))))]
 
     def sp_obj_at(self, node, p, fc):
         """obj_at(i): the object with reference number i (to quantify over all objects)"""
